@@ -21,6 +21,9 @@ fn build(prog: &J) -> SaseEngine {
             "ge1" => Some(Predicate::Compare { field: "x".into(), op: CompareOp::Ge, value: Value::Int(1) }),
             "eqprev" => Some(Predicate::CompareRef { field: "x".into(), op: CompareOp::Eq, ref_alias: format!("s{}", i), ref_field: "x".into() }),
             "gtself" => Some(Predicate::CompareRef { field: "x".into(), op: CompareOp::Gt, ref_alias: alias.clone(), ref_field: "x".into() }),
+            "gtself_leprev" => Some(Predicate::And(
+                Box::new(Predicate::CompareRef { field: "x".into(), op: CompareOp::Gt, ref_alias: alias.clone(), ref_field: "x".into() }),
+                Box::new(Predicate::CompareRef { field: "x".into(), op: CompareOp::Le, ref_alias: format!("s{}", i), ref_field: "x".into() }))),
             f => panic!("unknown filter {f}"),
         };
         let ev = SasePattern::Event { event_type: st["type"].as_str().unwrap().into(), predicate: pred, alias: Some(alias) };
@@ -181,6 +184,7 @@ fn render_vpl(prog: &J) -> Option<String> {
             "ge1" => " where x >= 1".to_string(),
             "eqprev" => format!(" where x == s{}.x", i),
             "gtself" => format!(" where x > s{}.x", i + 1),
+            "gtself_leprev" => format!(" where x > s{}.x and x <= s{}.x", i + 1, i),
             _ => unreachable!(),
         };
         if i == 0 {
@@ -287,7 +291,7 @@ pub fn replay(args: &[String]) {
         let any_out = real.iter().any(|s| !s.matches.is_empty()) || real.iter().any(|s| s.dropped + s.evicted > 0);
         rep.case(&json!({"prog": prog, "stream": stream}), any_out);
         if kstep.is_some() { rep.count("kleene_cases", 1); }
-        if steps.iter().any(|s| s["f"] == "gtself") { rep.count("postponed_cases", 1); }
+        if steps.iter().any(|s| s["f"].as_str().unwrap_or("").starts_with("gtself")) { rep.count("postponed_cases", 1); }
         if prog["maxRuns"].as_u64().unwrap() <= 2 || prog["maxK"].as_u64().unwrap() <= 2 { rep.count("tight_cap_cases", 1); }
         // ---- conformance with the model, step by step (API) ----
         let mut conform = true;
@@ -366,7 +370,7 @@ pub fn record(args: &[String]) {
             2 => json!([{"type":"A","f":"none","all":false},{"type":"A","f":f2,"all":false}]),
             3 => json!([{"type":"A","f":"none","all":false},{"type":"B","f":"none","all":true},{"type":"C","f":"none","all":false}]),
             4 => json!([{"type":"A","f":"none","all":false},{"type":"B","f":"ge1","all":true},{"type":"C","f":"none","all":false}]),
-            5 => json!([{"type":"A","f":"none","all":false},{"type":"B","f":"gtself","all":true},{"type":"C","f":"none","all":false}]),
+            5 => json!([{"type":"A","f":"none","all":false},{"type":"B","f": if rng.chance(1, 2) { "gtself" } else { "gtself_leprev" },"all":true},{"type":"C","f":"none","all":false}]),
             6 => json!([{"type":"A","f":"none","all":false},{"type":"B","f":f2,"all":false},{"type":"C","f":"eqprev","all":false},{"type":"A","f":"none","all":false}]),
             _ => json!([{"type":"A","f":"none","all":false},{"type":"B","f":"none","all":true}]),
         };
@@ -408,11 +412,11 @@ pub fn kleene_record(args: &[String]) {
     let mut rep = Report::new();
     let mut traces = vec![];
     for b in 0..nblocks {
-        let f = ["none", "ge1", "gtself"][b % 3];
+        let f = ["none", "ge1", "gtself", "gtself_leprev"][b % 4];
         let n = 1 + rng.below(maxn);
         let full = 1u64 << n.min(20);
         let max_k = *rng.pick(&[1, 2, n.max(1), n + 1, 20]);
-        let max_enum = if f == "gtself" { *rng.pick(&[1, 2, 3, full.saturating_sub(1).max(1), full, 100000]) } else { *rng.pick(&[1, 100]) };
+        let max_enum = if f.starts_with("gtself") { *rng.pick(&[1, 2, 3, full.saturating_sub(1).max(1), full, 100000]) } else { *rng.pick(&[1, 100]) };
         let prog = json!({
             "steps": [{"type":"A","f":"none","all":false},{"type":"B","f":f,"all":true},{"type":"C","f":"none","all":false}],
             "part": rng.chance(1, 2), "negs": [], "maxRuns": 100, "strat": "drop", "maxK": max_k, "maxEnum": max_enum,
@@ -426,7 +430,7 @@ pub fn kleene_record(args: &[String]) {
         let nm = real.last().map(|s| s.matches.len()).unwrap_or(0);
         rep.case(&json!({"prog": prog, "stream": stream}), nm > 0);
         if nm > 1 { rep.count("multi_combo_cases", 1); }
-        if (nm as u64) == max_enum && f == "gtself" { rep.count("enum_cap_hit", 1); }
+        if (nm as u64) == max_enum && f.starts_with("gtself") { rep.count("enum_cap_hit", 1); }
         traces.extend(trace_block(&prog, &stream, &real));
     }
     write_ndjson(&args[1], &traces);
